@@ -1896,6 +1896,8 @@ func main() {
 	mon.Floor("cli-multi:ok", 60)
 	mon.Floor("profile-file:more-than-100-sites", 500)
 	mon.Floor("refmut:after-edit", 1000)
+	mon.Floor("deep:rows=257", 2)
+	mon.Floor("deep:rows=65537", 2)
 	mon.Floor("concurrent:calls", 500)
 	mon.Main("C14", []mon.Sub{
 		{Name: "witness", Quick: 12, Thorough: 12, Run: runWitness},
@@ -1908,6 +1910,7 @@ func main() {
 		{Name: "refmut", Quick: 8000, Thorough: 150000, Run: runRefMut},
 		{Name: "codon", Quick: 3000, Thorough: 40000, Run: runCodon},
 		{Name: "concurrent", Quick: 64, Thorough: 1200, Race: true, Run: func(c *mon.Case) { conc.Run(c, "stats") }},
+		{Name: "deep", Quick: 12, Thorough: 48, Run: runDeep},
 		{Name: "cli", Quick: 368, Thorough: 3680, Serial: true, Run: runCli},
 		{Name: "profile-file", Quick: 2000, Thorough: 40000, Run: runProfileFile},
 		{Name: "cli-multi", Quick: 130, Thorough: 1300, Run: runCliMulti},
